@@ -26,17 +26,34 @@ def main_closure(P):
     return P.body(o[1]["def"])
 
 
+def _outcome_of(cb, o, call_bb):
+    o = mir.o_root(o) if o[0] in ("ref", "deref", "copy") else o
+    if o[0] == "call" and o[1].bb == call_bb:
+        return o[1]
+    if o[0] == "call" and o[1].callee.get("name") in ("map_err", "map", "into", "as_ref", "as_mut", "ok", "branch") and o[1].args:
+        return _outcome_of(cb, cb.origin(o[1].args[0]), call_bb)
+    if o[0] == "phi":
+        # a merged outcome (the result of a spliced helper: `a()?; b()`): it can only be a success where it is the call's own result if every
+        # other way into it is an error value - the residual of an earlier `?`, or an Err / None built in place
+        hit, rest_fail = None, True
+        for y in o[1]:
+            c = _outcome_of(cb, y, call_bb)
+            if c is not None:
+                hit = c
+            elif (y[0] == "call" and y[1].callee.get("name") == "from_residual") or (y[0] == "agg" and y[1].get("variant") in ("Err", "None")):
+                continue
+            else:
+                rest_fail = False
+        return hit if rest_fail else None
+    return None
+
+
 def _q_success_guard(cb, target_bb, call_bb):
     """target_bb is reached only when the call at call_bb succeeded: through the Continue edge of `?` applied to (a map_err of) it, the
     Ok/Some arm of a match or `if let` on it, the fall-through of `if let Err(..)/None = .. { return }`, or the true/false edge of
     is_ok()/is_some() / is_err()/is_none() on it."""
     def from_call(o):
-        o = mir.o_root(o) if o[0] in ("ref", "deref", "copy") else o
-        if o[0] == "call" and o[1].bb == call_bb:
-            return o[1]
-        if o[0] == "call" and o[1].callee.get("name") in ("map_err", "map", "into", "as_ref", "as_mut", "ok", "branch") and o[1].args:
-            return from_call(cb.origin(o[1].args[0]))
-        return None
+        return _outcome_of(cb, o, call_bb)
 
     def only_success(vals, term, fail):
         vals = [str(v) for v in vals]
@@ -305,7 +322,7 @@ def sync_before_ok(P):
         if names[-1:] != ["file"]:
             return False, "%s is called on %s, not the active file's handle" % (c.callee.get("name"), o_str(cb.origin(c.args[0]))), [], c.loc
     for bb, st in oks:
-        if not (cb.dominates(f.bb, s.bb) and cb.dominates(s.bb, bb)):
+        if not (cb.dominates(f.bb, s.bb) and (cb.dominates(s.bb, bb) or _q_success_guard(cb, bb, s.bb))):
             return False, ("the worker can return Ok (line %s) on a path that does not pass flush() and then sync_all(): the "
                            "batch would be acknowledged before it is durable" % st.get("line")), [], "%s:%s" % (cb.file, st.get("line"))
         if not _q_success_guard(cb, bb, s.bb):
@@ -399,7 +416,7 @@ def run(chk):
         if len(writes) != 1:
             return False, "expected exactly one place where the active file is stored back, found %d" % len(writes), [], cb.span
         bb, s = writes[0]
-        if not sy or not cb.dominates(sy[0].bb, bb) or not _q_success_guard(cb, bb, sy[0].bb):
+        if not sy or bb not in cb.reachable_from(sy[0].bb) or not _q_success_guard(cb, bb, sy[0].bb):
             return False, ("the active file is kept for the next batch (line %s) before/without a successful sync: a file "
                            "that failed mid-write would be reused without recovery" % s.get("line")), [], "%s:%s" % (cb.file, s.get("line"))
         # no Err-returning path stores it
@@ -613,7 +630,17 @@ def run(chk):
             raise mir.AnchorMissing("advance / sync_all in the worker")
         a, s = adv[0], sy[0]
         rw = {c.bb for c in cb.calls_to(path="emit_file::EventBatch::rewind")}
-        reach = cb.reachable_from(a.term.get("t"), removed_blocks={s.bb} | rw)
+        # with the sync taken out of the graph, the Continue edge of a `?` whose operand can only be a success as the sync's own result (a merged
+        # outcome of a spliced flush-and-sync helper) is not takeable
+        dead = set()
+        for gbb, t_ in cb.switches():
+            so_ = cb.switch_origin(gbb)
+            if so_[0] == "discr" and mir.o_is_call(so_[1], name="branch") and so_[1][1].bb != s.bb:
+                arg_o = cb.origin(so_[1][1].args[0])
+                if arg_o[0] == "phi" or (arg_o[0] == "call" and arg_o[1].bb != s.bb):
+                    if _outcome_of(cb, arg_o, s.bb) is not None and not cb.dominates(s.bb, gbb):
+                        dead |= {(gbb, n_) for v_, n_ in t_["targets"] if str(v_) == "0"}
+        reach = cb.reachable_from(a.term.get("t"), removed_blocks={s.bb} | rw, removed_edges=dead)
         exits = []
         # ways out that can lead to the skipped events being acknowledged later: a retryable error (the batch handed
         # back no longer contains them) - a permanent error (no_retry) fails the whole batch and acknowledges nothing
